@@ -94,17 +94,16 @@ def run(chk):
         eres_async = pool.map_async(_probe_job, ejobs, chunksize=8)
         # ---- B1: design, concurrently -------------------------------------------------------
         b1 = [
-            {"module": "InterpMC", "cfg": "InterpMC_q8.cfg" if chk.thorough() else "InterpMC_q8q.cfg", "label": "B1 pool {1/8..1}, 2-6 points, degree 1-4" if chk.thorough() else "B1 pool {1/8..1}, 2-5 points, degree 1-4", "workers": 6},
             {"module": "InterpMC", "cfg": "InterpMC_full.cfg" if chk.thorough() else "InterpMC.cfg",
-             "label": "B1 pool {1/16..1}, 2-6 points, degree 1-3" if chk.thorough() else "B1 pool {1/16..1}, 2-3 points, degree 1-2", "workers": 8 if chk.thorough() else 4},
-            {"module": "InterpMC", "cfg": "InterpMC_raw.cfg", "label": "B1 rejection: raw lists of 1-4 points x degree 0-3", "workers": 2},
+             "label": ("B1 pool {1/16..1} 2-6 points degree 1-3, pool {1/8..1} 2-6 points degree 4, rejection lists"
+                       if chk.thorough() else
+                       "B1 pool {1/8..1} 2-5 points degree 1-4, pool {1/16..1} 2-3 points degree 1-2, rejection lists"),
+             "workers": 12 if chk.thorough() else 8},
             {"module": "InterpMC", "cfg": "InterpMC_upperopen.cfg", "label": "design switch UpperClosed=FALSE (must violate)", "workers": 1, "expect_violation": "InvC34"},
-            {"module": "InterpMC", "cfg": "InterpMC_firstopen.cfg", "label": "design switch FirstClosed=FALSE (must violate)", "workers": 1, "expect_violation": "InvC34"},
         ]
-        res = drv.run_many(chk, b1, threads=5)
-        design_bad = [(j["label"], r) for j, r in zip(b1[:3], res[:3]) if r.violated]
-        for lab, r in design_bad:
-            chk.diag(f"design counterexample in {lab}: {r.violated}: {r.counterexample()[:1200]}")
+        if chk.thorough():
+            b1.append({"module": "InterpMC", "cfg": "InterpMC_firstopen.cfg", "label": "design switch FirstClosed=FALSE (must violate)", "workers": 1, "expect_violation": "InvC34"})
+        b1run = drv.ManyTlc(chk, b1, threads=3)
         eres = eres_async.get()
         lres = lres_async.get()
 
@@ -124,7 +123,37 @@ def run(chk):
         raise MachineryError(f"{unresolved} of {len(ejobs)} exact probes unresolved")
     for rec in [x for x in recs if x["err"] == "" and len(x["raw"]) >= 4][:2] + [x for x in recs if x["err"]][:1]:
         chk.sample({k: rec[k] for k in ("raw", "deg", "err")} | {"areas_of_basis_1": rec["areas"][1] if rec["areas"] else []})
-    bad = drv.validate_chunks(chk, "InterpTrace", "InterpTrace.cfg", recs, max(40, len(recs) // 12 + 1), "exact probes")
+    # binding demonstration rides along: corrupted copies must be rejected by the same runs
+    good = next(x for x in recs if x["err"] == "" and len(x["raw"]) >= 4 and x["deg"] >= 2 and x["tgts"])
+    c1 = copy.deepcopy(good)
+    c1["vals"][1][2] = [c1["vals"][1][2][0] + 1, c1["vals"][1][2][1]]          # a value off
+    c2 = copy.deepcopy(good)
+    c2["areas"][0][0]["coefs"][0] = [c2["areas"][0][0]["coefs"][0][0] + 1, c2["areas"][0][0]["coefs"][0][1]]
+    c3 = copy.deepcopy(good)
+    c3["tgts"][2]["R"][0][0] = [1, 3]
+    c4 = copy.deepcopy(good)
+    c4["err"] = "ValueError"                                                     # valid grid refused
+    nreal = len(recs)
+    nchunks = 8 if chk.thorough() else 3
+    # laws: every planned cell measured; two corrupted law records after the end marker
+    lrecs = [r for r, _ in lres]
+    replays = [rp for _, rp in lres]
+    c5 = copy.deepcopy(next(x for x in lrecs if x["bound_e"] <= -12))
+    c5["resid_e"] = -4                                                           # class off
+    c6 = copy.deepcopy(lrecs[0])
+    c6["cell"] = dict(c6["cell"], deg=9)                                         # unplanned cell
+    pjobs = drv.trace_jobs("InterpTrace", "InterpTrace.cfg", recs + [c1, c2, c3, c4], nchunks, "exact probes")
+    ljob = {"module": "InterpTrace", "cfg": "InterpTrace.cfg", "workers": 1,
+            "trace": lrecs + [{"kind": "end"}, c5, c6],
+            "label": "law measurements (plan completeness + classes) + 2 corrupted records"}
+    tres = drv.run_many(chk, pjobs + [ljob], threads=nchunks + 1)
+    rl = tres[-1]
+    bad = drv.trace_bad(chk, pjobs, tres[:-1])
+    demo = {k - nreal: v for k, v in bad if k >= nreal}
+    if not all(demo.get(k, "").startswith("C34:") for k in range(4)):
+        raise MachineryError(f"binding demonstration failed (corrupted probes accepted): {demo}")
+    chk.cov["traces_validated_against_impl"] -= 4
+    bad = [(k, v) for k, v in bad if k < nreal]
     for k, verdict in bad:
         rec = recs[k]
         inst = f"grid={rec['raw']} deg={rec['deg']}"
@@ -137,15 +166,14 @@ def run(chk):
         else:
             raise MachineryError(f"trace record rejected for a non-property reason: {verdict} {inst}")
 
-    # ---- laws: every planned cell measured, classes judged by TLC ----------------------------
-    lrecs = [r for r, _ in lres]
-    replays = [rp for _, rp in lres]
+    # ---- laws: classes judged by TLC -----------------------------------------------------------
     for r in lrecs:
         chk.count(1, ("l", str(sorted(r["cell"].items())), r["sample"]), nontrivial=True)
-    rl = chk.tlc("InterpTrace", "InterpTrace.cfg", trace=lrecs + [{"kind": "end"}], workers=1,
-                 label="law measurements (plan completeness + classes)")
     if rl.violated or not rl.completed:
         raise MachineryError(f"InterpTrace did not accept the law trace: {rl.out[-2000:]}")
+    lbad = {t[1] - 1: t[2] for t in rl.printed("BAD")}
+    if not lbad.get(len(lrecs) + 1, "").startswith("C34:law") or not lbad.get(len(lrecs) + 2, "").startswith("PLAN:"):
+        raise MachineryError(f"binding demonstration failed (corrupted law records accepted): {lbad}")
     chk.cov["traces_validated_against_impl"] += len(lrecs)
     n_unres = 0
     worst = {}
@@ -153,8 +181,9 @@ def run(chk):
         key = r["cell"]["law"]
         if r["bound_e"] <= -7:
             worst[key] = max(worst.get(key, -99), r["resid_e"] - r["bound_e"])
-    for t in rl.printed("BAD"):
-        k, verdict = t[1] - 1, t[2]
+    for k, verdict in sorted(lbad.items()):
+        if k > len(lrecs):
+            continue
         if verdict == "UNRESOLVED":
             n_unres += 1
             continue
@@ -183,28 +212,17 @@ def run(chk):
     chk.note("law_unresolved_cells", unres_cells[:60])
     chk.sample({"law_record": lrecs[0]})
 
-    # ---- binding demonstration ----------------------------------------------------------------
-    good = next(x for x in recs if x["err"] == "" and len(x["raw"]) >= 4 and x["deg"] >= 2 and x["tgts"])
-    c1 = copy.deepcopy(good)
-    c1["vals"][1][2] = [c1["vals"][1][2][0] + 1, c1["vals"][1][2][1]]          # a value off
-    c2 = copy.deepcopy(good)
-    c2["areas"][0][0]["coefs"][0] = [c2["areas"][0][0]["coefs"][0][0] + 1, c2["areas"][0][0]["coefs"][0][1]]
-    c3 = copy.deepcopy(good)
-    c3["tgts"][2]["R"][0][0] = [1, 3]
-    c4 = copy.deepcopy(good)
-    c4["err"] = "ValueError"                                                     # valid grid refused
-    c5 = copy.deepcopy(next(x for x in lrecs if x["bound_e"] <= -12))
-    c5["resid_e"] = -4
-    c6 = copy.deepcopy(lrecs[0])
-    c6["cell"] = dict(c6["cell"], deg=9)
-    rb = chk.tlc("InterpTrace", "InterpTrace.cfg", trace=[c1, c2, c3, c4, c5, c6, lrecs[0], {"kind": "end"}],
-                 workers=1, label="corrupted records / incomplete plan (must be rejected)")
-    got = {t[1]: t[2] for t in rb.printed("BAD")}
-    want = {1: "C34:", 2: "C34:", 3: "C34:", 4: "C34:", 5: "C34:law", 6: "PLAN:", 8: "PLAN:"}
-    for k, pre in want.items():
-        if not got.get(k, "").startswith(pre):
-            raise MachineryError(f"binding demonstration failed at record {k}: {got}")
-    chk.note("binding_demo", "4 corrupted probes, 1 corrupted law class, 1 unplanned cell, 1 incomplete plan rejected by InterpTrace")
+    if chk.thorough():
+        rb = chk.tlc("InterpTrace", "InterpTrace.cfg", trace=[lrecs[0], {"kind": "end"}], workers=1,
+                     label="incomplete plan (must be rejected)")
+        got = {t[1]: t[2] for t in rb.printed("BAD")}
+        if not got.get(2, "").startswith("PLAN:"):
+            raise MachineryError(f"an incomplete law plan was accepted: {got}")
+    chk.note("binding_demo", "4 corrupted probes, 1 corrupted law class, 1 unplanned cell rejected by InterpTrace")
 
+    res = b1run.finish()
+    design_bad = [(j["label"], r) for j, r in zip(b1[:1], res[:1]) if r.violated]
+    for lab, r in design_bad:
+        chk.diag(f"design counterexample in {lab}: {r.violated}: {r.counterexample()[:1200]}")
     if design_bad and not chk.violations:
         raise MachineryError("Interp.tla violates C34 on its own transcription but the implementation does not: spec is wrong")
